@@ -84,23 +84,22 @@ Definition C07_seamless_cursor_final_full : Prop :=
        fst res = [] \/ map eblk (fst res) = above (rn (cu_lib cu)) merged \/
        exists hi, final_lib c w <= hi /\ map eblk (fst res) = seg_num (rn (cu_lib cu) + 1) hi canon).
 
-(* NOT PROVED: the final-blocks-only clause in target-cursor mode (the memory starts empty: start_mem = None; c07_prop
-   checks final_fold None).  Stated with the scope of C07_seamless_target (cursor block B on canon) but WITHOUT its two
-   agreement hypotheses files_on_hub / target_on_chain, which a final-blocks-only handler should not need:
-     - a final target cursor (cursor LIB = cursor block; anything else is rejected) is never answered through the
-       "cursor block stored off the chain" branch of blocksThroughCursor (that branch needs blocks_from_cursor = BOk, hence
-       the cursor LIB - the cursor block itself - on the head's segment): target_on_chain is not needed;
-     - the join is not made on identity in this mode, so the hub's answer for number n may start with a forked sibling of
-       the file block - but its new+irreversible part consists of the segment blocks numbered n .. hub LIB, which are final
-       for the hub, hence on canon (the segment up to the LIB block and canon are parent-linked runs of the universe that
-       share the chain of the hub's last head): the file block itself when n <= hub LIB, nothing otherwise; the New events
-       of a forked answer never reach the handler: files_on_hub is not needed.
-   Model runs with the hub on a fork at the join (the world of c07_join_by_number_refuted, target cursors on blocks 8, 12,
-   14) and with a lagging hub satisfy it.  Missing for a proof: (1) final_tail of Proofs/C07_FinalCursor.v for the empty
-   starting memory (anchor = the block under the first delivered one instead of the cursor block L; the number-mode proof
-   Proofs/C07_Final.v does this inline), (2) the shape of hub_through_cursor's answer for a final cursor without
-   target_on_chain, and "a canonical block numbered between the segment's first block and the hub's LIB is on the
-   segment", which replaces the join on identity (burst_irr / burst_parent_le for blocks_from_num use it through id_joins). *)
+(* The final-blocks-only clause in target-cursor mode (PROVED: c07_seamless_target_final, Proofs/C07_FinalTarget.v).  The
+   memory starts empty (start_mem = None; c07_prop checks final_fold None).  Scope of C07_seamless_target (cursor block B on
+   canon) for a final cursor (cursor LIB = cursor block; a cursor that is not on a final block is rejected), but WITHOUT
+   the agreement hypothesis target_on_chain (nor files_on_hub, which C07_seamless_target had before the fix "target join on
+   identity"), which a final-blocks-only handler does not need:
+     - a final target cursor is never answered through the "cursor block stored off the chain" branch of
+       blocksThroughCursor (that branch needs blocks_from_cursor = BOk, hence the cursor LIB - the cursor block itself -
+       on the head's segment);
+     - whether or not the join is made on identity (it is when the cursor block is below the file block, since the fix
+       "target join on identity"; the proof does not use it): the hub's answer for number n might start with a forked
+       sibling of the file block - but its new+irreversible part consists of the segment blocks numbered n .. hub LIB, which are final
+       for the hub, hence on canon (seg_on_canon): the file block itself when n <= hub LIB, nothing otherwise; the New
+       events of a forked answer never reach the handler.
+   For every outcome each delivered block extends the previous one; when the stream ends waiting it has delivered a
+   beginning of the merged blocks from start (never left the files; all of them unless the file source gave up on the
+   cursor), or, from start on, exactly canon up to a height at or above the hub's LIB. *)
 Definition C07_seamless_target_final_full : Prop :=
   forall (U : list block) (c : jcfg) (w : world) (ps : list (N * N)) (merged_end : N) (canon forked : list block)
          (cu : cursor) (B : block),
